@@ -199,9 +199,9 @@ func ruleR29_2(c *Check) {
 	r.DomAll(dp, "compactions stopped before prefixes are dropped", dpx, 0, selCallName(w, "badger.DB.stopCompactions"), 0)
 	// memtable loop: ranges over db.imm after appending db.mt
 	okLoop := false
-	dp.walk(func(x ast.Node) bool {
+	dp.walkInl(func(own *Fn, x ast.Node) bool {
 		if rs, ok := x.(*ast.RangeStmt); ok && w.fieldOf(rs.X) == w.Field("badger.DB.imm") {
-			if containsSel(w, dp, rs.Body, hf) {
+			if containsSel(w, own, rs.Body, hf) {
 				okLoop = true
 			}
 		}
@@ -396,6 +396,7 @@ func ruleR29_4(c *Check) {
 }
 
 func propC29(c *Check) {
+	ruleR29_5(c)
 	ruleR29_4(c)
 	ruleR29_1(c)
 	ruleR29_2(c)
